@@ -2326,7 +2326,6 @@ func c01StrictDecoderNulls(ctx *Ctx, r *Report) {
 		"the array branch emits `x = cog.ToPtr(append(*x, item))` for a nullable reference to a list and never initialises x: `items?: #Items` with `#Items: [...#Item]` starts as a nil pointer — UnmarshalJSONStrict panics on the valid document {\"items\":[{…}]}")
 }
 
-
 // c11AbsentStaysAbsent: from_json builds the loaded object with the constructor, which sets constants and schema
 // defaults. For a property that is not required the document may not hold it, and to_json writes whatever is not
 // None: the function that writes from_json resets, under `"<name>" not in data`, the non-required properties the
